@@ -331,7 +331,9 @@ PROPS = {
                 "differ in the step after the prefix, lists that extend a sibling) over the same and different targets, repeated names/values, MATCHED_VAR targets.",
         "modelled": _ENG_MODELLED + " The cache itself is modelled in lean/Coraza/Model/TfCache.lean; the engine model is cache-free, "
                     "C12_cache_transparent proves them equal, the correspondence compares the real (cached) engine with the cache-free model.",
-        "assumptions": _ENG_ASSUME + ["transformations are pure (C14)", "transformationID interning is injective on chains (hypothesis `Interned`)"],
+        "assumptions": _ENG_ASSUME + ["transformations are pure (C14)",
+                                        "the interning table is modelled with chains as lists of names (Model/TfIntern.lean; the Go table joins the names with '+'); "
+                                        "C12_interned proves the hypothesis `Interned` of the cache theorem for that model; the table itself is exercised by `tfid`, `tfwrap` and the cache profile"],
         "open_statements": [],
     },
     "C17": {
